@@ -2,3 +2,4 @@
 #![allow(dead_code, unused)]
 
 pub mod c18;
+pub mod zero;
